@@ -106,7 +106,7 @@ VARIANTS = [
     ("C09-b3", "C09", TY, '            return _to_comparable_tag_factory("people", "%")', '            return _to_comparable_tag_factory("projects", "%")', "bad", "C09.R3"),
     ("C09-b4", "C09", TY, "            return len(values)", "            return len(set(values))", "bad", "C09.R5"),
     # ---------------------------------------------------------------- C10
-    ("C10-b1", "C10", FM, '            if line.startswith(("- ", "o ", "~ ", "x ", "< ", "> ")):', '            if line.startswith(("- ", "o ", "~ ", "x ", "> ")):', "bad", "C10.R3"),
+    ("C10-b1", "C10", FM, '            if line.startswith(("- ", "o ", "~ ", "x ", "< ", "> ")):', '            if line.startswith(("- ", "o ", "~ ", "x ", "> ")):', "ok", None),  # only moves the insertion point: no line is lost, the property does not fix the position
     ("C10-b2", "C10", NU, '        elif mtype == "projects":\n            prefix_chars = "+"', '        elif mtype == "projects":\n            prefix_chars = "#"', "bad", "C10.R3"),
     ("C10-b3", "C10", FM, '        if zlines[start_idx].strip() == "":\n            # Replace the blank line we settled on with the new note.\n            end_idx = start_idx + 1\n        else:', '        if start_idx >= 0:\n            # Replace the blank line we settled on with the new note.\n            end_idx = start_idx + 1\n        else:', "bad", "C10.R1"),
     # ---------------------------------------------------------------- C11
